@@ -489,10 +489,8 @@ class AccSignal(Signal):
             print('Generating response spectra')
         if response_times is not None:
             self.response_times = response_times
-        if self.response_times[0] != 0:
-            min_non_zero_period = self.response_times[0]
-        else:
-            min_non_zero_period = self.response_times[1]
+        periods = np.asarray(self.response_times, dtype=float)
+        min_non_zero_period = np.min(periods[periods > 0])  # the list need not be in ascending order
         target_dt = max(min_non_zero_period / 20, self.dt / min_dt_ratio)  # limit to ratio of motion time step
         if target_dt < self.dt:
             values_interp, dt_interp = interp_array_to_approx_dt(self.values, self.dt, target_dt, even=False)
